@@ -29,7 +29,8 @@ def patches():
 def run_one(args):
     name, path, jobs = args
     out = os.path.join(OUT, name + ".json")
-    p = subprocess.run([sys.executable, os.path.join(ROOT, "sim", "sensitivity.py"), path, "--jobs", str(jobs)],
+    extra = ["--props", os.environ["SENS_PROPS"]] if os.environ.get("SENS_PROPS") else []   # default: all five
+    p = subprocess.run([sys.executable, os.path.join(ROOT, "sim", "sensitivity.py"), path, "--jobs", str(jobs)] + extra,
                        stdout=subprocess.PIPE, stderr=subprocess.PIPE, text=True)
     try:
         d = json.loads(p.stdout)
